@@ -236,7 +236,7 @@ func Load() (*Loaded, error) {
 		Sizes:    types.SizesFor("gc", "amd64"),
 	}
 	for _, ip := range []string{ModPath, ModPath + "/log", ModPath + "/mmap",
-		"io", "strconv", "bytes", "bufio", "sort", "strings", "encoding/binary", "unicode/utf8"} {
+		"io", "io/ioutil", "strconv", "bytes", "bufio", "sort", "strings", "encoding/binary", "unicode/utf8"} {
 		p.InitPkgs[ip] = true
 	}
 	for _, sp := range spkgs {
